@@ -175,7 +175,20 @@ def gen_crash_points():
                 reraises = any(isinstance(x, ast.Raise) for x in ast.walk(h))
                 if ("Exception" in names and "Cancelled" not in names) and not reraises:
                     survives = True
+    # does _connect notice that the spa was disconnected while its endpoint was being created, and release that endpoint?
+    releases = False
+    body = [st for st in connect.body if not (isinstance(st, ast.Expr) and isinstance(st.value, ast.Constant))]
+    for i, st in enumerate(body):
+        if any(isinstance(n, ast.Await) and "create_datagram_endpoint" in ast.unparse(n) for n in ast.walk(st)) and i + 1 < len(body):
+            nxt = body[i + 1]
+            if isinstance(nxt, ast.If) and ast.unparse(nxt.test) == "self._disconnected" and _has_call(nxt, ".close") \
+                    and any(isinstance(n, ast.Return) for n in nxt.body) \
+                    and not any(isinstance(t, ast.Attribute) and t.attr == "_transport" for n in ast.walk(st) if isinstance(n, ast.Assign) for t in ast.walk(n.targets[0])):
+                before = [ast.unparse(b).replace(" ", "") for b in body[:i]]
+                sets = any(ast.unparse(n).replace(" ", "") == "self._disconnected=True" for n in ast.walk(disconnect))
+                releases = "self._disconnected=False" in before and sets
     facts = {
+        "connectReleasesEndpointIfDisconnected": releases,
         "disconnectClosesTransport": _has_call(disconnect, "_transport.close") or _has_call(disconnect, "transport.close"),
         "disconnectCancelsSpaTasks": _has_call(disconnect, "cancel_key_tasks", "SPA"),
         "disconnectUnwatchesAll": _has_call(disconnect, "unwatch_all"),
